@@ -310,6 +310,7 @@ type gSpec struct {
 	WantKind  string            `json:"want_kind"` // "" spec annot annot-depr invalid both
 	WantPool  string            `json:"want_pool"`
 	DeprPool  bool              `json:"depr_pool"`
+	Decoy     bool              `json:"decoy"` // the deprecated spelling of an annotation is ALSO present, with another value: the stable one wins
 }
 
 // the same port number also occurs on a second protocol (ports are (protocol, port) pairs)
@@ -341,6 +342,7 @@ func gGenSpec(r *rand.Rand, pools []gPool, held []string) gSpec {
 	sort.Ints(sp.Ports)
 	sp.Sharing = []string{"", "k1", "k1", "k1", "k2"}[r.Intn(5)]
 	sp.DeprShare = r.Intn(4) == 0
+	sp.Decoy = r.Intn(4) == 0
 	sp.Local = r.Intn(3) == 0
 	// several labels too: the backend key of a Local service is a rendering of the whole selector
 	sp.Selector = []map[string]string{nil, nil, {"app": "a"}, {"app": "a"}, {"app": "b"}, {"app": "a", "tier": "x", "zone": "z1", "rel": "s"}, {"app": "a", "tier": "x", "zone": "z1", "rel": "s"}}[r.Intn(7)]
@@ -436,6 +438,9 @@ func gApplySpec(name string, sp gSpec, old *v1.Service) *v1.Service {
 			ann(DeprecatedAnnotationAllowSharedIP, sp.Sharing)
 		} else {
 			ann(AnnotationAllowSharedIP, sp.Sharing)
+			if sp.Decoy {
+				ann(DeprecatedAnnotationAllowSharedIP, map[bool]string{true: "k2", false: "k1"}[sp.Sharing == "k1"]) // the other key in use
+			}
 		}
 	}
 	s.Spec.ExternalTrafficPolicy = v1.ServiceExternalTrafficPolicyTypeCluster
@@ -461,7 +466,13 @@ func gApplySpec(name string, sp gSpec, old *v1.Service) *v1.Service {
 			ann(DeprecatedAnnotationAddressPool, sp.WantPool)
 		} else {
 			ann(AnnotationAddressPool, sp.WantPool)
+			if sp.Decoy {
+				ann(DeprecatedAnnotationAddressPool, "legacy-pool")
+			}
 		}
+	}
+	if sp.Decoy && sp.WantKind == "annot" {
+		ann(DeprecatedAnnotationLoadBalancerIPs, "192.0.2.99")
 	}
 	return s
 }
@@ -1782,6 +1793,18 @@ func hRunHistory(t *testing.T, out *vOut, r *rand.Rand, id int) {
 				checkQuiescent()
 			}
 			out.Stat("directed_avoid_toggle_scenarios", 1)
+		} else {
+			// ... or a dual-stack pair requested IPv6-first whose IPv4 half is a .255 / .0 address of a pool avoiding them
+			doPools([]gPool{{Name: "pa", CIDRs: []string{"10.0.0.4/31", "fc00::4/127"}, Auto: true}, {Name: "pc", CIDRs: []string{"10.0.0.254/31", "fc00:2::ff/128"}, Avoid: true, Auto: true}})
+			pair := []string{"fc00:2::ff", "10.0.0.255"}
+			if r.Intn(3) == 0 {
+				pair = []string{"10.0.0.255", "fc00:2::ff"}
+			}
+			doPut("ns2/c", gSpec{LB: true, Fam: "dual", ClusterOK: true, Pol: "require", First6: r.Intn(2) == 0, Ports: []int{2}, WantKind: "annot", WantIPs: pair})
+			if drain() {
+				checkQuiescent()
+			}
+			out.Stat("directed_buggy_half_of_requested_pair_scenarios", 1)
 		}
 	} else {
 		doPools(gGenPools(r))
